@@ -52,7 +52,15 @@ NewLine(s) == [s EXCEPT !.line = s.line + 1, !.ls = s.pos]          \* after the
 SkipSpace(s, ret) == [s EXCEPT !.pc = "sp", !.ret = ret]
 ReadToken(s, k) == [SkipSpace(s, "tok") EXCEPT !.k = k]
 \* readToken() returned false: everywhere but in the content loop the parse fails with the error readToken has set
-TokFail(s, p) == IF s.k = "cont" THEN [SetErr(s, p) EXCEPT !.pc = "ptext_start", !.saved = <<>>, !.ce = <<0, 1, 0>>] ELSE Reject(s, p)
+\* (in the content loop the text then simply does not start with a token: unless the input has ended the cursor goes back to
+\* the saved position / the end of the last comment, as after a token that is neither tag start nor tag end, so that white
+\* space in front of text such as " /usr/bin" stays part of it; Bugs "norewind" = the code as found, which went on where
+\* the failed look-ahead had stopped)
+TokFail(s, p) ==
+  IF s.k # "cont" THEN Reject(s, p)
+  ELSE IF "norewind" \in Bugs \/ Cur(s) = 0 THEN [SetErr(s, p) EXCEPT !.pc = "ptext_start", !.saved = <<>>, !.ce = <<0, 1, 0>>]
+  ELSE LET to == IF "cmttext" \notin Bugs /\ s.ce[1] > s.saved[1] THEN s.ce ELSE s.saved IN
+       [SetErr(s, p) EXCEPT !.pos = to[1], !.line = to[2], !.ls = to[3], !.saved = <<>>, !.ce = <<0, 1, 0>>, !.pc = "ptext_start"]
 TokOk(s, t, n) == [Adv(s, n) EXCEPT !.tokt = t, !.pc = "disp"]
 
 \* strncmp(text + off, kw, Len(kw)): "eq" / "ne", or "need" when the deciding byte has not been supplied yet
